@@ -297,7 +297,7 @@ func Execute(w *World, tape *simrt.Tape, gold []*Golden, onFatal func(int, strin
 	x.steps = func() int64 { return simrt.GetStats().Steps }
 
 	cfg := simrt.Config{
-		Tape: tape, Policy: w.Cfg.Policy, SwitchPct: w.Cfg.SwitchPct, PCTDepth: w.Cfg.PCTDepth,
+		Tape: tape, Policy: w.Cfg.Policy, SwitchPct: w.Cfg.SwitchPct, PCTDepth: w.Cfg.PCTDepth, PCTSpan: w.Cfg.PCTSpan,
 		PoolFreshPct: w.Cfg.PoolFreshPct, PoolAnyPct: w.Cfg.PoolAnyPct, PoolDropPct: w.Cfg.PoolDropPct,
 		StepCap: stepCapFor(w), FPYieldPct: w.Cfg.FPYieldPct, ClockVaryPct: w.Cfg.ClockVaryPct, CPUVary: w.Cfg.CPUVary, RandVary: w.Cfg.RandVary, KeepPools: w.Cfg.KeepPools, OnFatal: onFatal,
 	}
